@@ -431,6 +431,15 @@ def hashOp (op : String) (args : List String) : Option String :=
   | "okm", ["fq", b] => do let b ← parseBytes b; pure (match Fq.fromOkm b with | none => "PANIC" | some a => fqIO.shw a)
   | "okm", ["fr", b] => do let b ← parseBytes b; pure (match Fr.fromOkm b with | none => "PANIC" | some a => frIO.shw a)
   | "okm", ["fq2", b] => do let b ← parseBytes b; pure (match Fq2.fromRo b with | none => "PANIC" | some a => fq2IO.shw a)
+  | "h2cfix", [grp, mode, bs] => do
+      let bs ← parseBytes bs
+      let ex : Bytes → Bytes → Nat → Option Bytes := fun _ _ l => if bs.length = l then some bs else none
+      match grp, mode with
+      | "g1", "ro" => pure (showJacO g1Ctx (hashToCurveG1 ex [] []))
+      | "g1", "nu" => pure (showJacO g1Ctx (encodeToCurveG1 ex [] []))
+      | "g2", "ro" => pure (showJacO g2Ctx (hashToCurveG2 ex [] []))
+      | "g2", "nu" => pure (showJacO g2Ctx (encodeToCurveG2 ex [] []))
+      | _, _ => none
   | "h2c", ["g1", x, "ro", m, d] => do
       let ex ← expander x; let m ← parseBytes m; let d ← parseBytes d
       pure (showJacO g1Ctx (hashToCurveG1 ex m d))
